@@ -8,6 +8,8 @@ import Driver.KeyEnc
 import Driver.Simd
 import Driver.SqlJoin
 import Driver.SqlSub
+import Driver.Cal
+import Driver.Json
 
 def main (args : List String) : IO UInt32 := do
   let stdin ← IO.getStdin
@@ -23,4 +25,6 @@ def main (args : List String) : IO UInt32 := do
   | ["sql"] => Driver.loop stdin stdout ([] : TurVerif.Sql.Db) Driver.Sql.step; return 0
   | ["key"] => Driver.loop stdin stdout () Driver.KeyEnc.step; return 0
   | ["simd"] => Driver.loop stdin stdout Driver.Simd.St.init Driver.Simd.step; return 0
+  | ["cal"] => Driver.loop stdin stdout () Driver.Cal.step; return 0
+  | ["json"] => Driver.loop stdin stdout () Driver.Json.step; return 0
   | _ => IO.eprintln "usage: tvmodel <family>"; return 2
